@@ -33,7 +33,7 @@ from ..translate import pyexpr
 from .. import stub
 
 ID = "C04"
-LEAN_MODULES = ["PyrollProps.C04"]
+LEAN_MODULES = ["PyrollProps.C04", "PyrollProps.C04Boundary"]
 MODEL = "c04"
 MODEL_MODULES = ["PyrollModel.Gen.C04", "PyrollModel.Gen.C04Groove", "PyrollModel.Gen.C04Valid", "PyrollModel.EvalDriver"]
 RULE = ("for each solver-backed groove class (20 incl. the Upset/Square subclasses and the generic class) and each admissible "
@@ -154,8 +154,70 @@ def _pad_angle(rng, fa_max_deg):
     return min(p, 170 - fa_max_deg)
 
 
-def draw(rng, cname):
-    """-> (fixed kwargs, values of all over-determined parameters, info) for a feasible geometry of class `cname`"""
+# ---------------------------------------------------------------------------------------------------------
+# boundary stream: a legitimate parameter exactly ON a boundary of its range
+# ---------------------------------------------------------------------------------------------------------
+# The documented range of every measure is "non-negative" (GenericElongationGroove.__init__: "All measures must be
+# non-negative"), of the flank angle "less than 90 degrees", of the pad angle "commonly 0 / 30 / 45 degrees".  A value
+# exactly on the end of its range (a radius exactly 0 = sharp edge, no indent, no even ground, no flank, a flank angle
+# next to 0 or 90 degrees) or exactly equal to a neighbouring dimension (two radii equal: the joint between their arcs
+# disappears) is where formulas degenerate (a quadratic becomes linear, an arc becomes a point, a denominator a factor)
+# and where code tends to branch (`if r1 > 0`, `if indent == 0`, `if pad_angle == 0`): random draws from the interior
+# never hit these values.  The property quantifies over the whole feasible region, which includes its boundary.
+EDGE_PADS = ("pad=0", "pad=30", "pad=45")
+EDGE_FA_LO = (0.5, 2.0)          # degrees: next to the lower end of the flank-angle range (0 itself: no groove at all)
+EDGE_FA_HI = (88.0, 89.5)        # next to the documented upper limit "less than 90 degrees"
+
+
+def edge_features(cname):
+    """the boundary features that exist for class `cname` (see `draw(..., edge=...)`)"""
+    if cname in R124_PLAIN:
+        return ["r1=0", "r1=r2", "fa-lo", "fa-hi"]
+    if cname == "FalseRoundGroove":
+        return ["r1=0", "r1=r2", "fa-lo", "fa-hi", "flank=0"]
+    if cname == "FlatOvalGroove":
+        return ["r1=0", "r1=r2", "fa-lo", "fa-hi", "egw=0"]
+    if cname in R123_PLAIN:
+        return ["r1=0", "r1=r2", "r2=r3", "fa-lo", "fa-hi"]
+    if cname == "Oval3RadiiFlankedGroove":
+        return ["r1=0", "r1=r2", "r2=r3", "fa-lo", "fa-hi", "flank=0"]
+    if cname == "EquivalentRibbedGroove":
+        return ["r1=0", "fa-lo", "fa-hi"]
+    if cname == "ConstrictedCircularOvalGroove":
+        return ["r1=0", "r1=r2", "r2=r3", "r3=r4", "r2=r4", "egw=0", "egw>0", "indent=0", "fa-lo", "fa-hi"]
+    if cname in BOX_PLAIN:
+        return ["r1=0", "r2=0", "r1=r2", "egw=0", "fa-lo", "fa-hi"]
+    if cname in BOX_CONSTR:
+        return ["r1=0", "r2=0", "r1=r2", "r2=r4", "r4=0", "indent=0", "egw=0", "fa-lo", "fa-hi"]
+    if cname == "DiamondGroove":
+        return ["r1=0", "r2=0", "r1=r2", "fa-lo", "fa-hi"]
+    if cname == "SquareGroove":
+        return ["r1=0", "r2=0", "r1=r2"]
+    if cname == "GenericElongationGroove":
+        return ["r1=0", "r2=0", "r1=r2", "egw=0", "fa-lo", "fa-hi"]
+    return []
+
+
+def _edge_fa(rng, edge, a):
+    """the flank angle (radians) of the witness geometry: next to an end of its range when the feature is asked for"""
+    if "fa-lo" in edge:
+        return rng.choice(EDGE_FA_LO) * DEG
+    if "fa-hi" in edge:
+        return rng.choice(EDGE_FA_HI) * DEG
+    return a
+
+
+def _edge_pad(edge, p, fa_deg):
+    for e in edge:
+        if e.startswith("pad="):
+            return min(float(e[4:]), 170 - fa_deg)
+    return p
+
+
+def draw(rng, cname, edge=frozenset()):
+    """-> (fixed kwargs, values of all over-determined parameters, info) for a feasible geometry of class `cname`.
+    `edge`: boundary features (see `edge_features`, `EDGE_PADS`): the named parameters are put exactly ON the boundary of
+    their range, everything else is drawn as usual and the over-determined parameters are computed forwards from the lot."""
     s = 10 ** rng.uniform(-3, 2)
     ext = {}
     if rng.random() < 0.3 and cname not in ("DiamondGroove", "SquareGroove", "GothicGroove"):
@@ -166,6 +228,11 @@ def draw(rng, cname):
         r2 = s
         r1 = s * rng.uniform(0.02, 0.4)
         fl = s * rng.uniform(0.02, 0.8) if cname == "FalseRoundGroove" else 0.0
+        if edge:
+            a = _edge_fa(rng, edge, a)
+            p = _edge_pad(edge, p, a / DEG)
+            r1 = 0.0 if "r1=0" in edge else r2 if "r1=r2" in edge else r1
+            fl = 0.0 if "flank=0" in edge else fl
         l = r1 * math.tan((a + p * DEG) / 2)
         depth = r2 * (1 - math.cos(a)) + (fl + l) * math.sin(a)
         half = r2 * math.sin(a) + (fl + l) * math.cos(a)
@@ -174,6 +241,8 @@ def draw(rng, cname):
                     flank_width=fl * math.cos(a), flank_height=fl * math.sin(a))
         if cname == "FlatOvalGroove":
             egw = s * rng.uniform(0.05, 3)
+            if "egw=0" in edge:
+                egw = 0.0
             fixed.update(r2=r2, depth=depth)
             vals = dict(usable_width=2 * half + egw, even_ground_width=egw)
         return fixed, vals, dict(scale=s, fa=a)
@@ -221,6 +290,14 @@ def draw(rng, cname):
             r3, r2 = r2, r3
         r1 = s * rng.uniform(0.02, 0.3)
         fl = s * rng.uniform(0.02, 0.6) if cname == "Oval3RadiiFlankedGroove" else 0.0
+        if edge:
+            fa = _edge_fa(rng, edge, fa)
+            if fa != a2 + a3:                       # the same split of the turning between the r3 and the r2 arc
+                a3, a2 = fa * a3 / (a2 + a3), fa * a2 / (a2 + a3)
+            p = _edge_pad(edge, p, fa / DEG)
+            r3 = r2 if "r2=r3" in edge else r3
+            r1 = 0.0 if "r1=0" in edge else r2 if "r1=r2" in edge else r1
+            fl = 0.0 if "flank=0" in edge else fl
         l = r1 * math.tan((fa + p * DEG) / 2)
         depth = r3 - (r3 - r2) * math.cos(a3) - r2 * math.cos(fa) + (fl + l) * math.sin(fa)
         half = (r3 - r2) * math.sin(a3) + r2 * math.sin(fa) + (fl + l) * math.cos(fa)
@@ -235,6 +312,8 @@ def draw(rng, cname):
             r2 = _ribbed_r2(**rib)
             r3 = r2 * rng.uniform(1.5, 4)
             r1 = r2 * rng.uniform(0.02, 0.2)
+            if "r1=0" in edge:
+                r1 = 0.0
             l = r1 * math.tan((fa + p * DEG) / 2)
             depth = r3 - (r3 - r2) * math.cos(a3) - r2 * math.cos(fa) + l * math.sin(fa)
             half = (r3 - r2) * math.sin(a3) + r2 * math.sin(fa) + l * math.cos(fa)
@@ -255,6 +334,18 @@ def draw(rng, cname):
         r2 = s * rng.uniform(0.2, 1)
         r1 = s * rng.uniform(0.02, 0.3)
         egw = s * rng.choice([0.0, rng.uniform(0.1, 2)])
+        if edge:
+            if "indent=0" in edge:
+                a3, a4 = a3 - a4, 0.0               # no constriction: the r4 arc has no extent, the ground is flat
+            t = _edge_fa(rng, edge, fa)
+            if t != fa:                             # the r2 arc takes up the difference (at least 0.1 degree of it is left)
+                a2 = max(t - (a3 - a4), 0.1 * DEG)
+            fa = a2 + a3 - a4
+            p = _edge_pad(edge, p, fa / DEG)
+            r3 = r2 if "r2=r3" in edge else r3
+            r4 = r3 if "r3=r4" in edge else r2 if "r2=r4" in edge else r4
+            r1 = 0.0 if "r1=0" in edge else r2 if "r1=r2" in edge else r1
+            egw = 0.0 if "egw=0" in edge else s * rng.uniform(0.1, 2) if "egw>0" in edge else egw
         indent = (r3 + r4) * (1 - math.cos(a4))
         l = r1 * math.tan((fa + p * DEG) / 2)
         depth = r3 - (r3 - r2) * math.cos(a3 - a4) - r2 * math.cos(fa) + l * math.sin(fa)
@@ -269,13 +360,24 @@ def draw(rng, cname):
         r2 = s * rng.uniform(0.02, 0.45)
         r1 = s * rng.uniform(0.02, 0.3)
         egw = s * rng.uniform(0.1, 4)
+        if edge:
+            fa = _edge_fa(rng, edge, fa)
+            p = _edge_pad(edge, p, fa / DEG)
+            r2 = 0.0 if "r2=0" in edge else r2
+            r1 = 0.0 if "r1=0" in edge else r2 if "r1=r2" in edge else r1
+            egw = 0.0 if "egw=0" in edge else egw
         fixed = dict(r1=r1, r2=r2, depth=depth, pad_angle=p, **ext)
         c4 = 0.0
         if cname in BOX_CONSTR:
             r4 = s * rng.uniform(0.05, 1)
             indent = (r2 + r4) * (1 - math.cos(rng.uniform(3, 40) * DEG))
+            if edge:
+                r4 = 0.0 if "r4=0" in edge else r2 if "r2=r4" in edge else r4
+                indent = 0.0 if "indent=0" in edge else min(indent, 0.9 * (r2 + r4))
+                if r2 + r4 == 0:
+                    indent = 0.0                    # two sharp corners leave nothing to indent with
             fixed.update(r4=r4, indent=indent)
-            c4 = (r4 + r2) * math.sin(math.acos(1 - indent / (r2 + r4)))
+            c4 = (r4 + r2) * math.sin(math.acos(1 - indent / (r2 + r4))) if r2 + r4 > 0 else 0.0
         gw = egw + 2 * (c4 + r2 * math.tan(fa / 2))
         uw = gw + 2 * depth / math.tan(fa)
         vals = dict(ground_width=gw, even_ground_width=egw, usable_width=uw, flank_angle=fa / DEG)
@@ -287,6 +389,12 @@ def draw(rng, cname):
         td = s * math.tan(a)
         r2 = s * rng.uniform(0.02, 0.4) * min(1.0, math.tan(a))
         r1 = s * rng.uniform(0.02, 0.3)
+        if edge:
+            a = _edge_fa(rng, edge, a)
+            p = _edge_pad(edge, p, a / DEG)
+            td = s * math.tan(a)
+            r2 = 0.0 if "r2=0" in edge else min(r2, 0.4 * s * math.tan(a))
+            r1 = 0.0 if "r1=0" in edge else r2 if "r1=r2" in edge else r1
         fixed = dict(r1=r1, r2=r2, pad_angle=p)
         vals = dict(usable_width=uw, tip_depth=td, tip_angle=(math.pi - 2 * a) / DEG)
         return fixed, vals, dict(scale=s, fa=a)
@@ -297,6 +405,12 @@ def draw(rng, cname):
         r2 = s * rng.uniform(0.02, 0.4)
         r1 = s * rng.uniform(0.02, 0.3)
         egw = s * rng.uniform(0.1, 4)
+        if edge:
+            fa = _edge_fa(rng, edge, fa)
+            p = _edge_pad(edge, p / DEG, fa / DEG) * DEG
+            r2 = 0.0 if "r2=0" in edge else r2
+            r1 = 0.0 if "r1=0" in edge else r2 if "r1=r2" in edge else r1
+            egw = 0.0 if "egw=0" in edge else egw
         gw = egw + 2 * r2 * math.tan(fa / 2)
         uw = gw + 2 * depth / math.tan(fa)
         fixed = dict(r1=r1, r2=r2, even_ground_width=egw, pad_angle=p, **ext)
@@ -551,6 +665,9 @@ def check_groove(ctx, cname, subset, kwargs, g, scale, iterative, given, observe
         have = getattr(g, k, None)
         exact = k in ("r1", "r2", "r3", "r4", "indent")
         lim = 0.0 if exact else (rt if k in _SOLVED_ECHO else 1e-9) * max(abs(v), 1e-300)
+        if v == 0 and k in _SOLVED_ECHO:
+            lim = tol       # a flank dimension given as exactly 0 (no flank): "relative to the value" is void, the measured
+            #                 flank is a difference of two junction coordinates of the size of the groove (solver precision)
         if have is None or not (abs(have - v) <= lim):
             bad("echo-" + k, f"given {k}={v!r}, the groove reports {have!r}")
     return ok
@@ -890,7 +1007,22 @@ def _must_resolve(cname, subset, info):
         return False
     if cname == "FlatOvalGroove":
         return True
-    return cname in R124_PLAIN + ["FalseRoundGroove"] and tuple(subset[:2]) == ("r2", "depth")
+    # (depth, usable_width): the residual in the flank angle is a positive factor times `g(angle) - depth` with g strictly
+    # increasing on (0, pi/2) for every flank mode and every r1 >= 0 (`r124_r2None_*_reduced`, `r124_r2None_*_root_unique`):
+    # the witness angle is its only root, the sign changes over the bracket, the bracketing root finder cannot fail, and the
+    # fixed point for r2 that follows is an explicit quotient (r4 = indent = 0).  (No rejection in the thorough runs of the
+    # unchanged tree, interior and boundary draws.)
+    return cname in R124_PLAIN + ["FalseRoundGroove"] and tuple(subset[:2]) in (("r2", "depth"), ("depth", "usable_width"))
+
+
+def _proved_unique(cname, sb):
+    """subsets for which the values are PROVED to determine the groove (PyrollProps/C04*.lean), so that a different contour
+    after a re-build is a violation without a numerical certificate: the one-radius family from (r2, depth) - residual
+    strictly monotone, `r124_widthNone_*_root_unique` - and from (depth, usable_width) - `r124_r2None_*_root_unique`, every
+    flank mode, r1 >= 0 incl. the sharp edge; with the flank angle given nothing is searched for.  Hypotheses (r1 >= 0,
+    positive width, non-negative flank dimension, 0 <= pad angle < 90 degrees, root inside the bracket) hold for every
+    constructed groove of these classes.  (r2, usable_width): not unique, see notes.)"""
+    return cname in R124_PLAIN + ["FalseRoundGroove"] and tuple(sb[:2]) in (("r2", "depth"), ("depth", "usable_width"))
 
 
 def unique_1d(log):
@@ -918,13 +1050,23 @@ def unique_1d(log):
     return monotone and int((np.sign(v[1:]) != np.sign(v[:-1])).sum()) == 1
 
 
-def run_case(ctx, corr, log, cname, subset, fixed, vals, info, cross=True, corpus=False):
+def run_case(ctx, corr, log, cname, subset, fixed, vals, info, cross=True, corpus=False, edge=None):
+    """`edge`: the boundary features of a draw of the boundary stream (None: interior draw); same clauses, separate counters"""
     rng = ctx.rng
     scale = info["scale"]
     kwargs = dict(fixed, **{k: vals[k] for k in subset})
     canon = [cname, list(subset), sorted((k, float("%.6g" % v)) for k, v in kwargs.items())]
     g, err = construct(cname, kwargs, log)
     tag = cname + ":" + "+".join(subset)
+    if edge is not None:
+        for e in edge:
+            ctx.count(("edge-constructed:" if g is not None else "edge-rejected:") + e)
+        if g is None:
+            what = cname + ":" + "+".join(sorted(e for e in edge if not e.startswith("pad=")))
+            ctx.count("edge-rejected:" + what)
+            ctx.notes.setdefault("observed", {}).setdefault("edge-rejected:" + what, {
+                "what": f"a feasible geometry with these parameters exactly on the boundary of their range is refused with {err}",
+                "replay": {"class": cname, "kwargs": kwargs}})
     if g is None:
         ctx.case(canon, nontrivial=False)
         ctx.count("rejected:" + tag)
@@ -970,7 +1112,10 @@ def run_case(ctx, corr, log, cname, subset, fixed, vals, info, cross=True, corpu
     # cross-subset: A -> derived values -> every other admissible subset B
     import numpy as np
     dv = derived_values(cname, g)
-    for sb in subsets_of(cname):
+    targets = list(subsets_of(cname))
+    if cname == "FalseRoundGroove" and len(subset) == 2:
+        targets = [p for p in PAIRS3] + targets     # built without flank argument: the other pairs without flank argument too
+    for sb in targets:
         if sb == subset:
             continue
         if any(dv.get(k) is None for k in sb):
@@ -1008,7 +1153,7 @@ def run_case(ctx, corr, log, cname, subset, fixed, vals, info, cross=True, corpu
             continue
         closed = not iterative
         multi = [o for o in log.oracles if o["kind"] == "root"]
-        if closed or (not multi and unique_1d(log)):
+        if closed or _proved_unique(cname, sb) or (not multi and unique_1d(log)):
             ctx.violation("cross-subset:" + cname, f"{tagb}: contours differ by {diff} (limit {lim}) although both grooves are "
                           "consistent and the values determine the groove uniquely", {"class": cname, "A": kwargs, "B": kb})
         else:
@@ -1046,7 +1191,8 @@ def run_case(ctx, corr, log, cname, subset, fixed, vals, info, cross=True, corpu
     diff = float(np.abs(a - b).max()) if a.shape == b.shape else float("inf")
     if diff <= lim:
         ctx.count("rebuild-same" if diff == 0.0 else "rebuild-same-within-precision")
-    elif not iterative or (not [o for o in log.oracles if o["kind"] == "root"] and unique_1d(log)):
+    elif not iterative or _proved_unique(cname, subset) or (
+            not [o for o in log.oracles if o["kind"] == "root"] and unique_1d(log)):
         ctx.violation("rebuild-differs:" + cname, f"{tag}: building the groove again from the very same values gives another "
                       f"contour (difference {diff}, limit {lim}) although the values determine the groove uniquely",
                       {"class": cname, "kwargs": kwargs})
@@ -1136,8 +1282,118 @@ def run(ctx):
                     # unchanged tree are < 8 % for every class/subset (non-convergence of hybr, IndexError of the raster)
                     ctx.disagreement(f"{cname} rejects {n - built} of {n} feasible geometries given as {subset}",
                                      {"class": cname, "subset": list(subset)})
+        run_boundary(ctx, corr, log)
+    if ctx.model_available and corr is not None:
+        fa_witness_case(ctx)
     if ctx.model_available and corr is not None:
         corr.flush()
+
+
+def boundary_subsets(cname):
+    """the admissible defining subsets, plus - boundary of "exactly one flank argument" - the false round with the flank
+    argument left out (the solver's flank-free mode: accepted by the constructor, the same groove as a flank of 0)"""
+    extra = PAIRS3 if cname == "FalseRoundGroove" else []
+    return list(subsets_of(cname)) + extra
+
+
+def run_boundary(ctx, corr, log):
+    """The boundary stream (see `edge_features`): every class x every admissible subset x every boundary feature, the pad
+    angle cycling through 0 / 30 / 45 degrees (0 is itself the boundary of the pad-angle range; the sibling of every case
+    switches between 0 and non-zero), plus combinations of two features.  Each case is a feasible geometry drawn forwards
+    with the named parameters exactly on the boundary and goes through the complete `run_case`: oracle on the constructed
+    (or refused-after-resolving) groove, rebuild from every other admissible subset filled with the derived values,
+    sibling under the other kind of pad angle, rebuild from the same values."""
+    rng = ctx.rng
+    rounds = ctx.budget(2, 6)
+    k = 0
+    for cname in ALL_CLASSES:
+        feats = edge_features(cname)
+        if not feats:
+            continue
+        for subset in boundary_subsets(cname):
+            for r in range(rounds):
+                for f in feats:
+                    edge = {f, EDGE_PADS[k % 3]}
+                    k += 1
+                    if cname == "FalseRoundGroove" and len(subset) == 2:
+                        edge.add("flank=0")             # no flank argument: the witness has no flank either
+                    if r % 2 == 1:                      # every second round: two features at once
+                        g = rng.choice(feats)
+                        if not _edge_conflict(f, g):
+                            edge.add(g)
+                    fixed, vals, info = draw(rng, cname, edge=frozenset(edge))
+                    if cname == "FlatOvalGroove" and "egw=0" in edge and subset == ("usable_width",):
+                        # the usable width of the witness is computed forwards, the solver's own value of the same width
+                        # differs from it in the last bit: the even ground width the constructor derives is +-1e-16 of the
+                        # width, and when it comes out negative the input is (by one rounding) outside the range - such a
+                        # refusal is not claimed to be wrong.  The boundary itself is hit exactly by the cross rebuild of
+                        # the `even_ground_width = 0` case (usable width as reported by the groove -> difference exactly 0).
+                        info = {k: v for k, v in info.items() if k != "fa"}
+                    run_case(ctx, corr, log, cname, subset, fixed, vals, info, edge=sorted(edge))
+
+
+def fa_witness_case(ctx):
+    """`PyrollProps/C04Boundary.lean` refutes the full closure statement of the `flank_angle`-given branch of `solve_r1234`
+    with a concrete environment (`faWitness`: 45 degree flank, alpha2 = 15, alpha3 = 60, hence alpha4 = 30 degrees; r2 = r3 = r4 =
+    1, sharp edge, depth 1) and proves the step to be exactly 1.  The witness is replayed on the implementation: the real
+    residual closure of the real `solve_r1234` is evaluated at the witness angles (scipy's `root` is replaced for this one
+    call by a stand-in that returns them - the theorem is about ANY root of the residual, not about the one hybr would
+    find), and the chain of the real generic constructor is traced for the returned angles.  No groove class reaches the
+    branch (`plumbing_calls`), so the step is counted (`observed:`), not reported; a deviation from the proved value is
+    a correspondence disagreement."""
+    import importlib
+    import numpy as np
+    ges = importlib.import_module("pyroll.core.grooves.generic_elongation_solvers")
+    from pyroll.core.grooves import GenericElongationGroove
+    fa, a2, a3 = math.pi / 4, math.pi / 12, math.pi / 3
+    args = dict(r1=0.0, r2=1.0, r3=1.0, r4=1.0, depth=1.0, width=2 * (math.cos(fa) + math.sin(fa)),
+                indent=2 * (1 - math.cos(a2 + a3 - fa)), pad_angle=0.0, flank_angle=fa)
+    seen = {}
+
+    class _Sol:
+        success = True
+        x = np.array([a2, a3])
+
+    def stand_in(f, x0, **kw):
+        seen["residual"] = [float(v) for v in f(np.array([a2, a3]))]
+        return _Sol()
+
+    old = ges.root
+    ges.root = stand_in
+    try:
+        sol = ges.solve_r1234(**args)
+    finally:
+        ges.root = old
+    replay = {"solver": "solve_r1234", "args": args, "root": [a2, a3]}
+    if "residual" not in seen or max(abs(v) for v in seen["residual"]) > 1e-12:
+        ctx.disagreement("the witness refuting r1234_fa_closure_full is not a root of the implementation's residual: "
+                         f"{seen.get('residual')}", replay)
+        return
+    obj = object.__new__(GenericElongationGroove)
+    refused = None
+    try:
+        obj.__init__(r1=0.0, r2=1.0, r3=1.0, r4=1.0, depth=1.0, usable_width=args["width"], indent=args["indent"],
+                     flank_angle=float(sol["flank_angle"]), alpha3=float(sol["alpha3"]), alpha4=float(sol["alpha4"]),
+                     pad_angle=0.0)
+    except ValueError as ex:
+        refused = str(ex)
+    step = obj.y4 - (obj.y3 - math.tan(obj.flank_angle) * (obj.z4 - obj.z3))
+    if abs(step - 1.0) > 1e-9:
+        ctx.disagreement(f"the chain of the witness refuting r1234_fa_closure_full ends with a step of {step}, proved: 1",
+                         replay)
+        return
+    ctx.validated()
+    ctx.count("observed:r1234-fa-witness-step-1" + (":refused" if refused else ":constructed"))
+    ctx.notes.setdefault("observed", {}).setdefault("r1234-fa-witness", {
+        "what": f"solve_r1234(flank_angle=...) at a root of its residual: step {step} at junction 4, generic constructor: "
+                f"{refused or 'accepted'}", "replay": replay})
+
+
+def _edge_conflict(f, g):
+    """two features that cannot hold together"""
+    pair = {f, g}
+    return (pair == {"fa-lo", "fa-hi"} or pair == {"egw=0", "egw>0"} or pair == {"r3=r4", "r2=r4"}
+            or (pair & {"r4=0"} and pair & {"r2=r4", "r3=r4"}) or (pair & {"r2=0"} and pair & {"r2=r4"}))
 
 
 def replay(ctx, data):
